@@ -176,6 +176,54 @@ func c09bGen(r *kit.Rand, idx int) *c09bCase {
 	return c
 }
 
+// c09bRW is a ResponseWriter that may be written to from several goroutines. handlePull does exactly
+// that (the pull goroutine's trace callback flushes progress while the handler goroutine encodes its first
+// status line — a data race that belongs to C15); httptest.ResponseRecorder dies of it with "concurrent
+// map writes", which would end this child for a reason that is not C09's.
+type c09bRW struct {
+	mu   sync.Mutex
+	hdr  http.Header
+	Code int
+	Body bytes.Buffer
+}
+
+func (w *c09bRW) Header() http.Header {
+	w.mu.Lock()
+	defer w.mu.Unlock()
+	if w.hdr == nil {
+		w.hdr = http.Header{}
+	}
+	return w.hdr.Clone() // nothing here reads the headers back
+}
+
+func (w *c09bRW) WriteHeader(code int) {
+	w.mu.Lock()
+	defer w.mu.Unlock()
+	if w.Code == 0 {
+		w.Code = code
+	}
+}
+
+func (w *c09bRW) Write(b []byte) (int, error) {
+	w.mu.Lock()
+	defer w.mu.Unlock()
+	if w.Code == 0 {
+		w.Code = 200
+	}
+	return w.Body.Write(b)
+}
+
+func (w *c09bRW) Flush() {}
+
+func (w *c09bRW) result() (int, string) {
+	w.mu.Lock()
+	defer w.mu.Unlock()
+	if w.Code == 0 {
+		return 200, w.Body.String()
+	}
+	return w.Code, w.Body.String()
+}
+
 type c09bWorld struct {
 	c      *c09bCase
 	mu     sync.Mutex
@@ -379,7 +427,7 @@ func c09bRun(t *testing.T, rep *kit.Report, c *c09bCase, base string) {
 	retried, multi := false, false
 	for si, st := range c.Steps {
 		if st.Op == "delete" {
-			rec := httptest.NewRecorder()
+			rec := &c09bRW{}
 			local.ServeHTTP(rec, httptest.NewRequest("DELETE", "/api/delete", strings.NewReader(fmt.Sprintf(`{"model":%q}`, c09bFQ))))
 			if _, err := cache.Resolve(c09bFQ); err == nil {
 				rep.Inconclusive(fmt.Sprintf("case %d: /api/delete answered %d and the name still resolves", c.Index, rec.Code))
@@ -412,7 +460,7 @@ func c09bRun(t *testing.T, rep *kit.Report, c *c09bCase, base string) {
 			}
 		}
 		body := fmt.Sprintf(`{"model":%q,"stream":%v}`, c09bName, st.Stream)
-		rec := httptest.NewRecorder()
+		rec := &c09bRW{}
 		done := make(chan any, 1)
 		go func() {
 			defer func() { done <- recover() }()
@@ -428,8 +476,8 @@ func c09bRun(t *testing.T, rep *kit.Report, c *c09bCase, base string) {
 			rep.Inconclusive(fmt.Sprintf("case %d step %d: /api/pull did not return within the watchdog", c.Index, si))
 			return
 		}
-		out := rec.Body.String()
-		success := rec.Code == 200 && strings.Contains(out, `"status":"success"`)
+		code, out := rec.result()
+		success := code == 200 && strings.Contains(out, `"status":"success"`)
 		w.mu.Lock()
 		pulls, fired := w.pulls, append([]string(nil), w.fired...)
 		reqs := append([]string(nil), w.reqs[nreq:]...)
@@ -452,7 +500,7 @@ func c09bRun(t *testing.T, rep *kit.Report, c *c09bCase, base string) {
 				}
 			}
 		}
-		wit := map[string]any{"step": si, "response_code": rec.Code, "response_tail": out[max(0, len(out)-600):], "pull_calls_by_handler": pulls, "faults_fired": fired,
+		wit := map[string]any{"step": si, "response_code": code, "response_tail": out[max(0, len(out)-600):], "pull_calls_by_handler": pulls, "faults_fired": fired,
 			"upstream_requests": reqs, "file_sizes_before": fmt.Sprint(pre), "outcomes_so_far": outcomes}
 		shape := func() string {
 			var b int
